@@ -21,7 +21,10 @@ FORMS = ("throw_str", "throw_obj", "throw_err", "null_prop", "call_nonfn", "unde
          "json_parse", "regexp_ctor", "match_bad_pattern", "reduce_empty")
 LOOPS = ("for", "while", "dowhile", "forin", "forof")
 NATIVES = ("forEach", "map", "filter", "some", "every", "find", "findIndex", "reduce", "sort",
-           "getter", "setter", "valueOf", "call", "apply", "bind")
+           "getter", "setter", "valueOf", "call", "apply", "bind",
+           # script code run by a nested interpreter: eval of a function call, and a callback that a
+           # built-in of a GLOBAL array runs from inside eval code
+           "evalfn", "eval_forEach")
 CTXS = ("stmt", "plus", "array", "arg", "cond", "assign")
 
 PRELUDE = (
@@ -149,7 +152,7 @@ class Gen:
             c2 = dict(ctx, loops=[], lblocks=[], in_try=False, in_finally=False, in_cb=True)
             node = {"t": "native", "k": self.nk(), "kind": kind, "rv": rng.choice((0, 1, 2)),
                     "b": self.block(depth + 1, c2, rng.randrange(1, 3))}
-            if kind not in ("getter", "setter") and rng.random() < 0.35:
+            if kind not in ("getter", "setter", "evalfn", "eval_forEach") and rng.random() < 0.35:
                 node["arrow"] = True      # the callback is an arrow function with a block body
             return node
         if name == "call":
@@ -325,6 +328,10 @@ def r_stmt(s, ind=""):
             return "%svar g%d={set s(v){\n%s\n%s}};\n%spv(%d, (g%d.s = 5));" % (ind, k, body, ind, ind, k, k)
         if kind == "valueOf":
             return "%svar g%d={valueOf:%s};\n%spv(%d, g%d * 3);" % (ind, k, fn, ind, k, k)
+        if kind == "evalfn":
+            return "%spv(%d, eval(%s));" % (ind, k, json.dumps("(%s)()" % fn))
+        if kind == "eval_forEach":
+            return "%spv(%d, eval(%s));" % (ind, k, json.dumps("A2.forEach(%s)" % fn))
         if kind == "call":
             return "%spv(%d, (%s).call(null));" % (ind, k, fn)
         if kind == "apply":
@@ -573,8 +580,12 @@ class Model:
         if kind == "valueOf":
             v = self.cb(s)
             return (v * 3) if isinstance(v, int) else "NaN"
-        if kind in ("call", "apply", "bind"):
+        if kind in ("call", "apply", "bind", "evalfn"):
             return self.cb(s)
+        if kind == "eval_forEach":
+            self.cb(s)
+            self.cb(s)
+            return None
         raise AssertionError(kind)
 
 
